@@ -120,6 +120,12 @@ CLAIMED["C19"] = dict(
     text="Proved on a model with ideal signatures and ideal authenticated encryption: VerifyBytes of an N-of-N positional multisig key succeeds iff there are exactly N signatures and the i-th verifies under the i-th key (nested keys recursively); a wrong passphrase never yields a key and never deletes or alters one; export then import gives the same key and address. The model is compared with the real code on thousands of key/signature trees with mutations and on keybase histories.",
     note="Trusted: Coq kernel, extraction, OCaml/Go drivers. PARTIAL by nature: 'verifies under no other key or message' is unforgeability of ed25519/secp256k1, and 'wrong passphrase never yields a key' is authenticity of scrypt+AES-GCM; both are hypotheses of the model (ideal primitives), exercised but not proved.",
     design_ref="§6 C19")
+CLAIMED["C20"] = dict(
+    engine="codec",
+    technique="Coq proof (uvarint/length-prefix round trip, Int/Uint text range checks, canonical JSON: canonical form depends only on the key->content map, rendering prefix-free hence sign bytes injective; rank/time key order and injectivity) + differential correspondence of those byte-level models with amino/SortJSON/StdSignBytes/key builders + round-trip and hostile-bytes oracles on every registered type and CheckTx/DeliverTx",
+    text="Proved for all inputs: uvarint-framed payloads decode back to payload and remainder; Int/Uint text decoders accept exactly the representable range; the canonical JSON of an object depends only on its key->content map (field order, duplicates, whitespace, escapes are irrelevant) and the rendering is injective, so sign bytes are equal iff (chain id, entropy, memo, canonical fee, canonical msg) are equal (strings: bytes < 0x80 exact, valid UTF-8 passed through); power-rank and time keys order like (power, inverted address) / the UTC time fields and are injective. Tied to the code by running SortJSON, StdSignBytes, amino's uvarint and the key builders against the extracted model every run. PARTIAL: go-amino's reflection-driven struct codec is not modelled - round trips of every type, re-encoding stability and crash-freedom on random/mutated bytes (also through CheckTx/DeliverTx) are decided by generated oracles on the implementation only.",
+    note="Trusted: Coq kernel, extraction, OCaml/Go drivers, Go's time package for instant <-> UTC calendar fields (years 0-9999: the format's domain), encoding/json of the pinned toolchain (escapes \\b, \\f). Known finding F21: memos with invalid UTF-8 survive the wire format but collapse to U+FFFD in the sign bytes (different content, same sign bytes).",
+    design_ref="§6 C20")
 REASON_NOT_YET = "check not built yet in this round (design in DESIGN.md §6); will be claimed once its model, theorems and correspondence engine exist"
 
 def main():
@@ -158,6 +164,8 @@ def main():
              "kind_free_text": "rootmulti+iavl+transient over a crash-instrumented MemDB: write/commit/reopen/LoadVersion/query histories, crash after every write unit, uninterrupted twin"},
             {"name": "keys", "path": "harness/cmd/keys", "serves_properties": ["C19"],
              "kind_free_text": "real keys, nested multisig verification with mutated signature trees, keybase op histories vs the ideal-primitive model"},
+            {"name": "codec", "path": "harness/cmd/codec", "serves_properties": ["C20"],
+             "kind_free_text": "amino binary/JSON round trips of all wire and storage types, sign-bytes canonicity and sensitivity, random/mutated bytes through every decoder and CheckTx/DeliverTx, key builders, uvarint frames and canonical JSON vs the extracted byte-level model"},
             {"name": "kv", "path": "harness/cmd/kv", "serves_properties": ["C15", "C16"],
              "kind_free_text": "random programs on random stackings of cachekv/prefix/gaskv/tracekv over MemDB vs the extracted Coq store model"},
         ],
